@@ -74,7 +74,23 @@ def _g_team_sigma(c, k, mu, sigma_squared, team, rank):
     return max(p.sigma for p in team) / c
 
 
+def _g_reentrant(c, k, mu, sigma_squared, team, rank):
+    """The default gamma value - computed after the callback has itself rated an unrelated three-team game and asked for a prediction
+    through a NEW model of the same class (same thread, while the outer rate() is in progress).  A pure callback as far as the outer call
+    is concerned: scratch state that the library keeps per thread or per module for 'the game being rated' must survive it."""
+    import sys
+
+    rcls = type(team[0])
+    mcls = getattr(sys.modules[rcls.__module__], rcls.__name__[: -len("Rating")])
+    inner = mcls()
+    lobby = [[inner.rating(30.0, 4.0)], [inner.rating(20.0, 5.0), inner.rating(22.0, 1.0)], [inner.rating(25.0, 3.0)]]
+    inner.predict_draw(lobby)
+    inner.rate(lobby, ranks=[1, 0, 1])
+    return math.sqrt(sigma_squared) / c
+
+
 GAMMAS = {
+    "reentrant": _g_reentrant,
     "mu_dep": _g_mu_dep,
     "team_sigma": _g_team_sigma,
     "zero": _g_zero,
